@@ -426,6 +426,9 @@ def run_bounds(case, ctx):
             ctx.nontrivial()
 
 
+# libFuzzer executions per shard and @given test of the coverage-guided extra of the thorough tier (vp/fuzz.py)
+FUZZ = 2000
+
 TESTS = [
     Test('relation', run_relation, strategy=lambda tier: relation_cases(tier),
          examples={'quick': 4000, 'thorough': 200000}),
